@@ -15,8 +15,11 @@ for prop in claims:
                            env=e, capture_output=True, text=True, timeout=3600)
         sigs = [l for l in p.stdout.splitlines() if "signature:" in l]
         herr = [l for l in p.stderr.splitlines() if l.startswith("HARNESS-ERROR")]
-        status = "ok" if p.returncode == 1 and not herr else f"PROBLEM rc={p.returncode}"
-        if status != "ok":
+        if p.returncode == 0 and not herr and not sigs:
+            status = "ok (no run has as many as n comparisons: nothing was forced)"
+        else:
+            status = "ok" if p.returncode == 1 and not herr else f"PROBLEM rc={p.returncode}"
+        if not status.startswith("ok"):
             bad += 1
         print(f"{prop} chaos={n}: rc={p.returncode} distinct violation signatures={len(sigs)} harness errors={len(herr)} -> {status}")
         for l in herr[:3]:
